@@ -115,7 +115,7 @@ Definition written_key (fs : bool) (latest : mapper) (k : pystr) (v : mval) : op
       | None => None
       | Some fname =>
           if fs then Some (fname ++ suffix)
-          else match apply_key latest fname with Key s => Some (s ++ suffix) | _ => None end
+          else match mapped_key_of latest fname with Ok s => Some (s ++ suffix) | Raise _ => None end
       end
   | _ => Some k
   end.
@@ -135,7 +135,7 @@ Proof.
         -- intro H. inversion H. eexists _, _. split; reflexivity.
         -- destruct (rec m (Sub pm)); cbn [bind]; [|discriminate].
            intro H. inversion H. eexists _, _. split; reflexivity.
-      * destruct (apply_key latest fname) as [s| |?]; cbn [bind]; try discriminate.
+      * destruct (mapped_key_of latest fname) as [s|]; cbn [bind]; try discriminate.
         destruct (sub_of latest s fname); cbn [bind]; try discriminate.
         -- intro H. inversion H. eexists _, _. split; reflexivity.
         -- destruct (rec m (Sub pm)); cbn [bind]; [|discriminate].
@@ -186,51 +186,48 @@ Proof.
   inversion Hv; subst. eexists. split; reflexivity.
 Qed.
 
-Lemma add_loop_des_entry m cur x :
+Lemma add_loop_des_entry m cur x s x' :
   shortcut m (cur ++ suffix) (Sub x) = false ->
+  des_sub_step m cur x = Ok (s, x') ->
   forall l acc r, NoDup (map fst l) -> In (cur ++ suffix, Sub x) l ->
     add_loop false m (fun sub v' => add_val false sub v') l acc = Ok r ->
-    exists s x', des_sub_step m cur x = Ok (s, x') /\
-                 (others_free m l cur s = true -> alist_get r (s ++ suffix) = Some (Sub x')).
+    others_free m l cur s = true -> alist_get r (s ++ suffix) = Some (Sub x').
 Proof.
-  intros Hsc. induction l as [|[k0 v0] t IH]; intros acc r Hnd Hin H; [destruct Hin|].
+  intros Hsc Hd. induction l as [|[k0 v0] t IH]; intros acc r Hnd Hin H Hfree; [destruct Hin|].
   rewrite add_loop_cons in H.
   destruct (add_step false m (fun sub v' => add_val false sub v') (k0, v0) acc) as [a|] eqn:St; cbn [bind] in H; [|discriminate].
   cbn [map fst] in Hnd. inversion Hnd as [|? ? Hnin Hnd']; subst.
+  cbn [others_free forallb] in Hfree. apply andb_true_iff in Hfree as [_ Hfree'].
   destruct Hin as [Heq|Hin].
   - inversion Heq; subst. clear Heq.
-    assert (Hrest : forall s, others_free m ((cur ++ suffix, Sub x) :: t) cur s = true ->
-                              alist_get r (s ++ suffix) = alist_get a (s ++ suffix)).
-    { intros s Hfree. apply (add_loop_other_written false m (fun sub v' => add_val false sub v') (s ++ suffix) t a r); [|exact H].
-      intros k v Hkv Hw. cbn [others_free forallb] in Hfree. apply andb_true_iff in Hfree as [_ Hfree].
-      rewrite forallb_forall in Hfree. specialize (Hfree (k, v) Hkv). cbn beta iota in Hfree.
-      apply orb_true_iff in Hfree as [E|E].
+    assert (Hrest : alist_get r (s ++ suffix) = alist_get a (s ++ suffix)).
+    { apply (add_loop_other_written false m (fun sub v' => add_val false sub v') (s ++ suffix) t a r); [|exact H].
+      intros k v Hkv Hw.
+      rewrite forallb_forall in Hfree'. specialize (Hfree' (k, v) Hkv). cbn beta iota in Hfree'.
+      apply orb_true_iff in Hfree' as [E|E].
       - apply pystr_eqb_spec in E. subst k. apply Hnin. apply in_map_iff. exists (cur ++ suffix, v). split; [reflexivity|exact Hkv].
       - rewrite Hw in E. rewrite pystr_eqb_refl in E. discriminate. }
+    rewrite Hrest. clear Hrest.
     unfold add_step in St. rewrite Hsc, ends_with_suffix_app in St.
-    unfold des_sub_step.
-    destruct (apply_key m cur) as [s| |?]; cbn [bind] in St; try discriminate.
-    destruct (sub_of m s cur) as [|sub|]; cbn [bind] in St; try discriminate.
-    + inversion St; subst a. exists s, x. split; [reflexivity|].
-      intro Hfree. rewrite (Hrest s Hfree). apply alist_get_set_same.
+    unfold des_sub_step in Hd. unfold mapped_key_of in St.
+    destruct (apply_key m cur) as [s0| |?]; cbn [bind] in St; try discriminate.
+    destruct (sub_of m s0 cur) as [|sub|]; cbn [bind] in St; try discriminate.
+    + inversion Hd; subst. inversion St; subst a. apply alist_get_set_same.
     + destruct (add_val false sub (Sub x)) as [r'|] eqn:Hv; cbn [bind] in St; [|discriminate].
       inversion St; subst a.
-      destruct (add_val_sub false sub x r' Hv) as [x' [Hx' ->]].
-      rewrite Hx'. cbn [bind]. exists s, x'. split; [reflexivity|].
-      intro Hfree. rewrite (Hrest s Hfree). apply alist_get_set_same.
-  - destruct (IH a r Hnd' Hin H) as [s [x' [Hd Hget]]].
-    exists s, x'. split; [exact Hd|].
-    intro Hfree. apply Hget. cbn [others_free forallb] in Hfree. apply andb_true_iff in Hfree as [_ Hfree]. exact Hfree.
+      destruct (add_val_sub false sub x r' Hv) as [x1 [Hx1 ->]].
+      rewrite Hx1 in Hd. cbn [bind] in Hd. inversion Hd; subst. apply alist_get_set_same.
+  - exact (IH a r Hnd' Hin H Hfree').
 Qed.
 
-Lemma add_agg_des_entry m (a a1 : amap) cur (x : amap) :
+Lemma add_agg_des_entry m (a a1 : amap) cur (x : amap) s x' :
   add_agg false m a = Ok a1 -> NoDup (map fst a) -> alist_get a (cur ++ suffix) = Some (Sub x) ->
   shortcut m (cur ++ suffix) (Sub x) = false ->
-  exists s x', des_sub_step m cur x = Ok (s, x') /\
-               (others_free m a cur s = true -> alist_get a1 (s ++ suffix) = Some (Sub x')).
+  des_sub_step m cur x = Ok (s, x') -> others_free m a cur s = true ->
+  alist_get a1 (s ++ suffix) = Some (Sub x').
 Proof.
-  intros H Hnd Hg Hsc. apply add_agg_loop in H.
-  exact (add_loop_des_entry m cur x Hsc a [] a1 Hnd (alist_get_some_In _ _ _ Hg) H).
+  intros H Hnd Hg Hsc Hd Hfree. apply add_agg_loop in H.
+  exact (add_loop_des_entry m cur x s x' Hsc Hd a [] a1 Hnd (alist_get_some_In _ _ _ Hg) H Hfree).
 Qed.
 
 (* the whole list *)
@@ -240,15 +237,21 @@ Fixpoint des_track (L : list mapper) (cur : pystr) (x : amap) : res (pystr * ama
   | m :: t => p <- des_sub_step m cur x ;; des_track t (fst p) (snd p)
   end.
 
-(* along the list: the `==` shortcut does not fire on the entry, and no other entry moves onto its key *)
+(* along the list: the field is not dropped and its entry composes ([des_sub_step] succeeds), the
+   `==` shortcut does not fire on the entry, and no other entry moves onto its key *)
 Fixpoint des_free (L : list mapper) (a : amap) (cur : pystr) (x : amap) : bool :=
   match L with
   | [] => true
   | m :: t =>
       negb (shortcut m (cur ++ suffix) (Sub x)) &&
-      match des_sub_step m cur x, add_agg false m a with
-      | Ok (s, x'), Ok a1 => others_free m a cur s && des_free t a1 s x'
-      | _, _ => true
+      match des_sub_step m cur x with
+      | Ok (s, x') =>
+          others_free m a cur s &&
+          match add_agg false m a with
+          | Ok a1 => des_free t a1 s x'
+          | Raise _ => true
+          end
+      | Raise _ => false
       end
   end.
 
@@ -262,9 +265,10 @@ Proof.
   - rewrite fold_add_cons in H.
     destruct (add_agg false m a) as [a1|e] eqn:E; [|rewrite fold_add_raise in H; discriminate].
     cbn [des_free] in Hfree. apply andb_true_iff in Hfree as [Hsc Hfree]. apply negb_true_iff in Hsc.
-    destruct (add_agg_des_entry m a a1 cur x E Hnd Hg Hsc) as [s [x1 [Hd Hget]]].
-    rewrite Hd, E in Hfree. apply andb_true_iff in Hfree as [Hof Hfree].
-    destruct (IH a1 am s x1 (add_agg_nodup _ _ _ _ E) (Hget Hof) H Hfree) as [k [x' [Ht Hk]]].
+    destruct (des_sub_step m cur x) as [[s x1]|] eqn:Hd; [|discriminate].
+    rewrite E in Hfree. apply andb_true_iff in Hfree as [Hof Hfree].
+    pose proof (add_agg_des_entry m a a1 cur x s x1 E Hnd Hg Hsc Hd Hof) as Hget.
+    destruct (IH a1 am s x1 (add_agg_nodup _ _ _ _ E) Hget H Hfree) as [k [x' [Ht Hk]]].
     exists k, x'. split; [|exact Hk].
     cbn [des_track]. rewrite Hd. cbn [bind fst snd]. exact Ht.
 Qed.
